@@ -268,6 +268,8 @@ func JSON(g *ach.File, v *gen.OptVariant) (fs []Fail) {
 	if err != nil {
 		if v.Name == "allow-missing-file-header" {
 			add("text:opts:blank-file-header-unreadable", "a file without file header (AllowMissingFileHeader) is written with a blank file header record which the Reader rejects under the same option: "+firstLine(err.Error()))
+		} else if v.Name == "short-trace-numbers" && strings.Contains(err.Error(), "ascending") {
+			add("text:opts:short-trace-numbers:written-order-differs", "trace numbers stored as bare numbers of different lengths (valid under BypassOriginValidation: \"333\" < \"83\" as strings) are written zero-padded, and the Reader, comparing the padded strings, rejects the Writer's output under the same options: "+firstLine(err.Error()))
 		} else {
 			add("text:opts:read-error", "the Reader (same options) rejects what the Writer wrote: "+firstLine(err.Error()))
 		}
